@@ -194,6 +194,15 @@ func manufacturedEOF(c *core.Ctx, rule string, pkgs []string, floor int) {
 				}
 			case *ssa.Call:
 				// more-input predicate: false edge
+				// a repo predicate `isEOF(err)` = `err == io.EOF`
+				if idx, eqTrue, g, ok := r7sentinelHelper(x.Call.StaticCallee()); ok && idx < len(x.Call.Args) && g.Object() == eofVar {
+					if eqTrue {
+						mark(tEdge, "err == io.EOF (through "+x.Call.StaticCallee().Name()+")")
+					} else {
+						mark(fEdge, "err == io.EOF (through "+x.Call.StaticCallee().Name()+")")
+					}
+					break
+				}
 				// (*json.Decoder).More is no evidence: it answers false for "nothing left" AND for a failing read (it drops the
 				// reader's error) — seed C16-16 turned a reader failure behind the last value into a clean io.EOF with it
 				if o := core.CalleeObj(x); o != nil && o.Pkg() != nil && o.Pkg().Path() == "encoding/json" && o.Name() == "More" {
